@@ -118,6 +118,13 @@ def run_scenario(rules, hist, cfg, guarded=False, vals=None, sparse=False):
     r = p.construct()
     if r:
         return r, p
+    if cfg.engine == "async" and any(x == "__initial__" for ((_c, x), _r) in rules) \
+            and len(hist) % 2 == 0:
+        # explicit activation (instead of the lazy one on the first event): events sent from the
+        # initial enter callbacks are queued behind the activation all the same
+        r = p.activate()
+        if r:
+            return f"activate: {r}", p
     for i, ev in enumerate(hist):
         r = p.send(ev, vals or {}, tag=f"e{i}")
         if r:
